@@ -184,7 +184,8 @@ class TemporalDictionaryEnsemble(BaseClassifier):
         """
         X, y = check_X_y(X, y, coerce_to_numpy=True)
 
-        self.time_limit = self.time_limit * 60
+        time_limit = self.time_limit * 60
+        n_parameter_samples = self.n_parameter_samples
         self.n_instances, self.n_dims, self.series_length = X.shape
         self.n_classes = np.unique(y).shape[0]
         self.classes_ = class_distribution(np.asarray(y).reshape(-1, 1))[0][0]
@@ -211,8 +212,8 @@ class TemporalDictionaryEnsemble(BaseClassifier):
         lowest_acc = 1
         lowest_acc_idx = 0
 
-        if self.time_limit > 0:
-            self.n_parameter_samples = 0
+        if time_limit > 0:
+            n_parameter_samples = 0
         if self.min_window > max_window:
             raise ValueError(
                 f"Error in TemporalDictionaryEnsemble, min_window ="
@@ -235,7 +236,7 @@ class TemporalDictionaryEnsemble(BaseClassifier):
 
         # use time limit or n_parameter_samples if limit is 0
         while (
-            train_time < self.time_limit or num_classifiers < self.n_parameter_samples
+            train_time < time_limit or num_classifiers < n_parameter_samples
         ) and len(possible_parameters) > 0:
             if num_classifiers < self.randomly_selected_params:
                 parameters = possible_parameters.pop(
